@@ -340,11 +340,16 @@ def walk(g, make_lab, first_labels, policy, seed, stats):
             if len(cs) > cs_cap:
                 drop = set(cs) - set(_rng(seed, [make_lab, "cs"] + path).sample(cs, cs_cap))
                 labels = [l for l in labels if l not in drop]
-        if tp_cap is not None and depth >= 1:
-            tp = sorted(l for l in labels if l.startswith('["TakePositions"') and _is_index_tuple(l))
+        leaf_only = set()  # executed and compared, but not extended into longer histories
+        if tp_cap is not None:
+            # decided on ALL labels of the node (a job may hold only a chunk of the first level)
+            tp = sorted(l for l in g.succ[sid] if l.startswith('["TakePositions"') and _is_index_tuple(l))
             if len(tp) > tp_cap:
                 drop = set(tp) - set(_rng(seed, [make_lab, "tp"] + path).sample(tp, tp_cap))
-                labels = [l for l in labels if l not in drop]
+                if depth >= 1:
+                    labels = [l for l in labels if l not in drop]
+                else:
+                    leaf_only = drop
         for lab in labels:
             groups = {}
             act = lab[2 : lab.index('"', 2)]
@@ -376,7 +381,7 @@ def walk(g, make_lab, first_labels, policy, seed, stats):
             for t, sub in groups.items():
                 if len(stats.samples) < 3 and depth >= 1:
                     stats.samples.append({"initial": g.states[g.succ[g.start][make_lab][0]]["rows"], "history": [json.loads(l) for l in path + [lab]], "result": g.states[t]})
-                if g.succ[t] and depth + 1 < max_depth:
+                if g.succ[t] and depth + 1 < max_depth and lab not in leaf_only:
                     visit(t, sub, path + [lab])
         # the receivers must still show the rows they had before the calls
         for track, obj in objs.items():
